@@ -17,6 +17,9 @@ CLAIMED = {
  "C15": ("taint / non-interference over def-use closures, per-branch placeholder-value pairing, constant folding of clause tables, finite abstract interpretation of the operator normalisation",
          "Decides the second sentence of the property completely (values never reach the SQL text; one placeholder per bound value in matching order) for every condition tree, because the rule quantifies over data-flow paths of the three make_text_update_values implementations and _execute, not over sampled values; and decides the operator normalisation (=/!= with None or a collection, empty IN / NOT IN, NULL tests, unsupported operators) exhaustively over a finite abstract domain of 17 operator spellings x 11 value kinds.",
          "The row set under SQL three-valued logic (first sentence) needs a database and is NOT decided, only its finite normalisation table is. Field names, static condition strings, SELECT text, group_by and _order_by are programmer-supplied SQL by design.", "3/C15"),
+ "C17": ("kind-domain abstract interpretation of the adapter-argument chain, fresh/alias + in-place-effect analysis, ordering and sibling-agreement rules over the AST",
+         "Decides the no-side-effect and composition clauses for every chain and request: adapter arguments of every kind end as a flat list (finite abstract domain, exhaustive), the only in-place mutations during request processing hit the header copy, adapter lists are fresh per connection, clones and per-prefix caches are per object, request adapters run forward and response processors reversed with own-before-parent order, auth adapters follow the absent-then-set discipline with b64(id:secret), and the urllib Request is wired from its namesakes.",
+         "URL and body encoding values (urlencode, json.dumps, utf-8) are not decided; urllib/json/base64 are trusted not to mutate their arguments.", "3/C17"),
 }
 
 NOT_APPLICABLE = {
